@@ -303,7 +303,7 @@ def spectral(ctx, LA):
                 ctx.fail('approximate_spectral_radius/below-0.9', 'estimate %.12g < 0.9 * %.12g' % (est, rho), case)
         # condition estimate on small dense matrices (every third round: structured matrices whose extreme eigenvectors are
         # special with respect to simple start vectors -- 1D Poisson, a periodic (circulant) stencil)
-        m = rng.choice([2, 3, 5, 7])
+        m = rng.choice([2, 3, 5, 7, 12, 18])
         for sym in (True, False):
             M = gen.poisson_like(rng, m)
             if it % 3 == 1:
